@@ -6,6 +6,7 @@
 -/
 import KcacheModel.Pipe
 import KcacheModel.Proofs.Pipe
+import KcacheModel.Sys
 import KcacheModel.Proofs.Cache
 namespace KC.C05
 open KC
@@ -137,6 +138,11 @@ end
 example : ∃ s, (Pipe.init 4 : Pipe Nat).run [.publish 1, .forward 0, .attach 0 false, .publish 2, .forward 0, .consume 1] = some s
     ∧ (s.node 1).out = [2] ∧ (s.node 1).attachedAt = 1 := ⟨_, rfl, by decide, by decide⟩
 
+/-- the capacity the code uses (`EventBufsiz`, regenerated from subscription.go on every run) is a real
+buffer: with capacity 0 the non-blocking hand-over of subscription.go would drop every event -/
+theorem code_capacity_positive : 0 < evCap := by decide
+
+
 end KC.C05
 
 #print axioms KC.C05.stage_exact
@@ -146,3 +152,4 @@ end KC.C05
 #print axioms KC.C05.root_exact
 #print axioms KC.C05.replay_version_grows
 #print axioms KC.C05.cache_not_older
+#print axioms KC.C05.code_capacity_positive
